@@ -23,6 +23,7 @@ const (
 	maxFieldIndexesCount     = 256
 	maxFuncParamsCount       = 128   // reflect.FuncOf panics with more parameters and results.
 	maxSelectCasesCount      = 65535 // reflect.Select accepts 65536 cases and the VM adds one for the context.
+	maxTextsCount            = 65536
 
 	// Non-local variables.
 	maxGlobalsCount     = 1 << 15 // 32768
@@ -570,6 +571,9 @@ func (fb *functionBuilder) flushText() {
 		text = append(text, b...)
 	}
 	fb.text.txt = fb.text.txt[0:0]
+	if len(fb.fn.Text) == maxTextsCount {
+		panic(newLimitExceededError(fb.fn.Pos, fb.path, "texts count exceeded %d", maxTextsCount))
+	}
 	fb.fn.Text = append(fb.fn.Text, text)
 }
 
